@@ -211,15 +211,15 @@ func parsePath(mail bool, s string, f Flags, v *verdicts) (rest string, mboxes [
 		return len(s), false
 	}
 	var inner string
-	if bracket && len(s) > 1 && s[1] == '@' {
-		colon, gt := strings.IndexByte(s, ':'), strings.IndexByte(s, '>')
+	if rt := strings.TrimPrefix(s, "<"); strings.HasPrefix(rt, "@") {
+		colon := strings.IndexByte(rt, ':')
 		if colon < 0 {
 			v.inv("source route without ':'")
 			return "", nil
 		}
-		if gt >= 0 && gt < colon {
+		if strings.ContainsAny(rt[:colon], "<> \t") {
 			// receivers ignore the route; what garbage it may hold is not judged
-			v.unsp("'>' inside the source route")
+			v.unsp("space or angle bracket inside the source route")
 			return "", nil
 		}
 	}
